@@ -213,6 +213,23 @@ Proof.
   intros k. apply (park_on o Hr Ho G w res Hwf).
   intros X xi HX Hxi. rewrite (Hfix X xi HX Hxi). apply (le_refl o Ho).
 Qed.
+
+(** ... hence it lies inside every certified enclosure *)
+Theorem newton_exact_stop_in_enclosure (rd infl : R -> R) (leb eqb : R -> R -> bool) kmax K lo u :
+  (forall x, le o (rd x) x) -> (forall x y, leb x y = true -> le o x y) ->
+  (forall x y, eqb x y = true -> x = y) ->
+  enclosure o rd infl leb G w K = Some (lo, u) ->
+  snd (newton_whole_run (close_exact G NT eqb) kmax) = false ->
+  let res := fst (newton_whole_run (close_exact G NT eqb) kmax) in
+  env_le_on o G (env_of o lo) res /\ env_le_on o G res (env_of o u).
+Proof.
+  intros rd_le leb_sound He H Hq.
+  destruct (newton_exact_stop_is_lfp eqb kmax He Hq) as (Hfix & Hleast & _).
+  destruct (enclosure_sound o Hr Ho rd infl leb rd_le leb_sound G w K lo u Hwf H) as (_ & _ & Hlo & _ & Hpre).
+  cbv zeta in *. split.
+  - apply Hlo. intros X xi HX Hxi. rewrite (Hfix X xi HX Hxi). apply (le_refl o Ho).
+  - apply Hleast. exact Hpre.
+Qed.
 End Whole.
 
 (** * (3) instances *)
@@ -257,3 +274,14 @@ Definition newton_exact_stop_is_lfp_viterbi G Hwf w kmax :=
   newton_exact_stop_is_lfp trop_ops trop_ring trop_ordered trop_star (fun x _ => x) tmax _ trop_newton_laws G Hwf w teqb kmax teqb_sound.
 Definition newton_exact_stop_is_lfp_real G Hwf w kmax :=
   newton_exact_stop_is_lfp ereal_ops ereal_ring ereal_ordered ereal_star esub emax2 _ ereal_newton_laws G Hwf w eeqb kmax eeqb_sound.
+
+(** Real: exact stop test and no warning: the result is inside the enclosure of [fp_check_real] *)
+Theorem newton_exact_stop_in_enclosure_real G (Hwf : wf_grammar G = true) w kmax K lo u :
+  enclosure ereal_ops rd_real infl_real eleb G w K = Some (lo, u) ->
+  snd (newton_whole_run ereal_ops esub emax2 G w (close_exact G (nonterminals G) eeqb) kmax) = false ->
+  let res := fst (newton_whole_run ereal_ops esub emax2 G w (close_exact G (nonterminals G) eeqb) kmax) in
+  env_le_on ereal_ops G (env_of ereal_ops lo) res /\ env_le_on ereal_ops G res (env_of ereal_ops u).
+Proof.
+  apply (newton_exact_stop_in_enclosure ereal_ops ereal_ring ereal_ordered ereal_star esub emax2 _ ereal_newton_laws
+           G Hwf w rd_real infl_real eleb eeqb kmax K lo u rd_real_le eleb_sound eeqb_sound).
+Qed.
